@@ -7,7 +7,7 @@ from sa.engine.cfg import is_shield_with
 from sa.engine.facts import Bad, F, atom
 from sa.engine.pattern import P, u
 from sa.engine.source import norm, own_walk, stmt_of
-from .common import A, SYNC, writer_table, queue_ends, lexically_inside
+from .common import guarded_take, A, SYNC, writer_table, queue_ends, lexically_inside
 
 EXPLANATION = ("Event: wait() awaits on both branches and really waits unless the event is set; the underlying event is only ever set, never "
                "cleared. Condition: the lock-holder check dominates every access to the waiter queue; the recorded owner is set after the lock "
@@ -208,14 +208,65 @@ def check(ctx):
         ctx.paths("R11-d", f, spec, step_n, None, at_exit_n, instance=instance)
         return deq, both
 
+    def collect_then_wake(f, bound_texts, what):
+        """two-phase spelling: up to `bound` waiters are dequeued into a fresh local list, then every element of that list is woken.
+        Returns True if f has this shape and its obligations were emitted."""
+        cols = ctx.sites(f, "$L.append(self._waiters.popleft())")
+        cols = [(s_, e_) for s_, e_ in cols if isinstance(e_["L"], ast.Name)]
+        if not cols or ctx.sites(f, "$E = self._waiters.popleft()") or ctx.sites(f, "self._waiters.popleft().set()"):
+            return False
+        L = cols[0][1]["L"].id
+        names_ok = all(e_["L"].id == L for _, e_ in cols)
+        inits = [n_ for n_ in own_walk(f.node) if isinstance(n_, (ast.Assign, ast.AnnAssign)) and getattr(n_, "value", None) is not None
+                 and isinstance(n_.value, ast.List) and not n_.value.elts
+                 and ((isinstance(n_, ast.Assign) and len(n_.targets) == 1 and getattr(n_.targets[0], "id", None) == L) or (isinstance(n_, ast.AnnAssign) and getattr(n_.target, "id", None) == L))]
+        copies = {L} | {n_.targets[0].id for n_ in own_walk(f.node) if isinstance(n_, ast.Assign) and len(n_.targets) == 1 and isinstance(n_.targets[0], ast.Name)
+                        and isinstance(n_.value, ast.Name) and n_.value.id == L}
+        wl = [n_ for n_ in own_walk(f.node) if isinstance(n_, ast.For) and isinstance(n_.iter, ast.Name) and n_.iter.id in copies and isinstance(n_.target, ast.Name)
+              and not n_.orelse and any(P(f"{n_.target.id}.set()").match(b_) is not None for b_ in n_.body)
+              and not any(isinstance(x, (ast.Break, ast.Continue, ast.Return, ast.Raise)) for x in ast.walk(n_))]
+        # every other use of the list would let an element escape the wake-up
+        uses = [x for x in own_walk(f.node) if isinstance(x, ast.Name) and x.id in copies and isinstance(x.ctx, ast.Load)]
+        legit = len(cols) + len(wl) + (len(copies) - 1)
+        ok_shape = names_ok and len(inits) == 1 and len(wl) == 1 and len(uses) == legit
+        ctx.ob("R11-d", f, f"{what}: the waiters dequeued into `{L}` are exactly the ones woken (fresh list, only appended to, iterated to the end)", ok_shape,
+               detail="" if ok_shape else f"`{L}`: {len(inits)} fresh-list initialisation(s), {len(wl)} complete wake loop(s), {len(uses)} uses for {legit} accounted ones",
+               by=("collect, then wake all",))
+        if not ok_shape:
+            return True
+        cl = [n_ for n_ in own_walk(f.node) if isinstance(n_, ast.For) and any(x is cols[0][0] for x in ast.walk(n_))]
+        okb = len(cl) == 1 and ast.unparse(cl[0].iter) in bound_texts and len(cols) == 1
+        ctx.ob("R11-d", f, f"{what}: at most the requested number of waiters is dequeued, one per attempt", okb,
+               detail="" if okb else f"the collecting loop is not `for _ in {bound_texts[0]}` with a single dequeue", by=(bound_texts[0],))
+        guarded_take(ctx, "R11-d", f, cols[0][0], "self._waiters", f"{what}: a waiter is dequeued only from a non-empty queue")
+        wl_ids = {id(wl[0])}
+
+        def step_cw(st, e, c):
+            if c.is_exc:
+                return st
+            if e == "collect":
+                return "pending"
+            if e == "wakeloop":
+                return "waking"
+            return st
+
+        ctx.paths("R11-d", f, [("collect", f"{L}.append(self._waiters.popleft())"), ("wakeloop", [lambda frag, node: node.kind == "for_iter" and id(node.node) in wl_ids])],
+                  step_cw, "", lambda k, st, fa: ("returns with dequeued waiters that are never woken" if k == "return" and st == "pending" else None),
+                  instance=f"{what}: every dequeued waiter is woken before returning")
+        return True
+
     nf = C["notify"]
     npar = nf.node.args.args[1].arg
-    loops = [n for n in own_walk(nf.node) if isinstance(n, ast.For)]
-    ok = len(loops) == 1 and ast.unparse(loops[0].iter) == f"range({npar})"
+    if collect_then_wake(nf, (f"range({npar})",), "notify"):
+        nf_done = True
+    else:
+        nf_done = False
+    loops = [n for n in own_walk(nf.node) if isinstance(n, ast.For)] if not nf_done else []
+    ok = nf_done or (len(loops) == 1 and ast.unparse(loops[0].iter) == f"range({npar})")
     ctx.ob("R11-d", nf, "notify(n) makes at most n attempts", ok, detail="" if ok else "the notify loop is not `for _ in range(n)`", by=(f"range({npar})",))
     deq, both = wakes(nf, {id(l) for l in loops}, ("for_iter",), "each dequeued waiter is woken, one per iteration") if loops else ([], [])
     sites_ = [s_ for s_, _ in deq] + [s_ for s_, _ in both]
-    if ctx.need("R11-d", nf, "dequeue `self._waiters.popleft()` in notify", len(sites_), 1) and loops:
+    if not nf_done and ctx.need("R11-d", nf, "dequeue `self._waiters.popleft()` in notify", len(sites_), 1) and loops:
         inloop = all(any(x is s_ for x in ast.walk(loops[0])) for s_ in sites_)
         ctx.ob("R11-d", nf, "dequeue happens inside the bounded loop", inloop, by=("in loop",), detail="" if inloop else "popleft outside the range(n) loop")
         hs = [h for h in own_walk(nf.node) if isinstance(h, ast.ExceptHandler) and h.type is not None and ast.unparse(h.type) in ("IndexError", "LookupError")]
@@ -227,10 +278,13 @@ def check(ctx):
                 ctx.require_at("R11-d", nf, s_, [["self._waiters"]], instance="notify stops when no waiter is left (dequeue only from a non-empty queue)",
                                what="popleft")
     na = C["notify_all"]
-    loops = [n for n in own_walk(na.node) if isinstance(n, ast.For) and ast.unparse(n.iter) in ("self._waiters", "list(self._waiters)", "tuple(self._waiters)")
+    na_done = collect_then_wake(na, ("range(len(self._waiters))",), "notify_all")
+    loops = [] if na_done else [n for n in own_walk(na.node) if isinstance(n, ast.For) and ast.unparse(n.iter) in ("self._waiters", "list(self._waiters)", "tuple(self._waiters)")
              and isinstance(n.target, ast.Name) and any(P(f"{n.target.id}.set()").match(b) is not None for b in n.body)]
     drains = [n for n in own_walk(na.node) if isinstance(n, ast.While)]
-    if loops or not drains:
+    if na_done:
+        pass
+    elif loops or not drains:
         ctx.ob("R11-d", na, "notify_all sets every queued event", len(loops) == 1, detail="" if loops else "no loop setting every event of self._waiters",
                by=("for event in self._waiters: event.set()",))
 
